@@ -29,18 +29,23 @@ LAYOUTS = ("Repetition9Code", "Repetition9Round6Code", "Repetition5Round4Code")
 
 
 def check(model: Model, rep: Report, tier: str):
-    y_tables(model, rep)
-    y6(model, rep)
-    y7(model, rep)
+    with rep.isolated():
+        y_tables(model, rep)
+    with rep.isolated():
+        y6(model, rep)
+    with rep.isolated():
+        y7(model, rep)
     from .c19 import _i2
-    share_rule(rep, model, _i2, "C17.Y8", "gates of the layouts and of the device are matched as unordered qubit pairs: EdgeIDObj equality / hash do not depend on the order of the two qubits (= C19.I2)")
+    with rep.isolated():
+        share_rule(rep, model, _i2, "C17.Y8", "gates of the layouts and of the device are matched as unordered qubit pairs: EdgeIDObj equality / hash do not depend on the order of the two qubits (= C19.I2)")
     # derived descriptions do not carry parks in a table: they ASK get_requires_parking at run time -- its skeleton is part of this property
     from .c16 import q1, q3, q4_q5, q9
     txt = ("the parks of a derived description are computed by get_requires_parking over the kept gates: that function has the skeleton 'neighbours a gate and takes part in none "
            "(both over ALL gates, complete before any gate can demand parking) and some involved neighbour is higher and on the moving side of its gate' (= C16.Q4), written in "
            "the frequency order (= C16.Q1), the moving side (= C16.Q3) and the device primitives (= C16.Q9); the checker's own predicate of Y4 is this skeleton")
-    for fn, only in ((q1, {"C16.Q1"}), (q3, {"C16.Q3"}), (q4_q5, {"C16.Q4"}), (q9, {"C16.Q9"})):
-        share_rule(rep, model, fn, "C17.Y9", txt, only_rules=only)
+    with rep.isolated():
+        for fn, only in ((q1, {"C16.Q1"}), (q3, {"C16.Q3"}), (q4_q5, {"C16.Q4"}), (q9, {"C16.Q9"})):
+            share_rule(rep, model, fn, "C17.Y9", txt, only_rules=only)
 
 
 # ---------------------------------------------------------------------------------------------
